@@ -33,20 +33,31 @@ CONSTANTS G,            \* goroutines
           SharedCounts, \* TRUE = code (With shares counters); FALSE = spec mutant
           WindowCmp,    \* "gt" = code (resetAt > tn); "ge" = spec mutant
           ModRule,      \* "code" : (n-first)%thereafter != 0 drops ; "one" : spec mutant ... == 1 keeps
+          InitMin,      \* the wrapped core's minimum level when the history starts: "off" < "on" < "on2" < "none"
+          LevelRead,    \* "check" = code (the wrapped core's level is read on every Check); "construct" = spec mutant
+          MaxToggles,   \* how often the wrapped core's level may be changed at run time (AtomicLevel.SetLevel)
           Emit
 
 Bucket(m) == IF m = "a2" THEN "a" ELSE m
 Cell(core, lvl, m) == <<IF SharedCounts THEN "root" ELSE core, lvl, Bucket(m)>>
-Cells == {Cell(c, l, m) : c \in Cores, l \in Levels \ {"off", "oor"}, m \in Msgs}
+Cells == {Cell(c, l, m) : c \in Cores, l \in Levels \ {"oor"}, m \in Msgs}
+\* The wrapped core's LevelEnabler is consulted on every Check (sampler.Enabled is the embedded core's), never
+\* cached: the level names are ordered, "oor" lies above every threshold.
+Rank(l) == CASE l = "off" -> 0 [] l = "on" -> 1 [] l = "on2" -> 2 [] l = "none" -> 3 [] OTHER -> 9
+MinLevels == (Levels \ {"oor"}) \cup {"none"}
 
 VARIABLES resetAt, counter,      \* per cell
           pc, ent, ra, n, k,     \* per goroutine: program counter, current entry, loaded resetAt, count, entries started
           win,                   \* per cell: timestamps of the counted entries, in the order they were counted (ghost)
           dec, hooks, fwd,       \* sets of <<g, k, ...>> observations
           resets,                \* number of times a window was (re)opened after Init
+          minLvl, toggles,       \* the wrapped core's current minimum level; level changes so far
+          skipped,               \* <<g, k>> of the entries that arrived while their level was disabled (ghost)
           h
-vars == <<resetAt, counter, pc, ent, ra, n, k, win, dec, hooks, fwd, resets, h>>
-NoHist == <<resetAt, counter, pc, ent, ra, n, k, win, dec, hooks, fwd, resets>>
+vars == <<resetAt, counter, pc, ent, ra, n, k, win, dec, hooks, fwd, resets, minLvl, toggles, skipped, h>>
+NoHist == <<resetAt, counter, pc, ent, ra, n, k, win, dec, hooks, fwd, resets, minLvl, toggles, skipped>>
+Enabled(l) == Rank(l) >= Rank(minLvl)
+SeenEnabled(l) == IF LevelRead = "check" THEN Enabled(l) ELSE Rank(l) >= Rank(InitMin)
 
 NoEnt == [core |-> "root", lvl |-> "on", msg |-> "a", t |-> 0]
 Init == /\ resetAt = [c \in Cells |-> InitResetAt] /\ counter = [c \in Cells |-> 0]
@@ -54,6 +65,7 @@ Init == /\ resetAt = [c \in Cells |-> InitResetAt] /\ counter = [c \in Cells |->
         /\ n = [g \in G |-> 0] /\ k = [g \in G |-> 0]
         /\ win = [c \in Cells |-> <<>>]
         /\ dec = {} /\ hooks = {} /\ fwd = {} /\ resets = 0 /\ h = <<>>
+        /\ minLvl = InitMin /\ toggles = 0 /\ skipped = {}
 
 Rec(g, a) == h' = IF Emit THEN Append(h, [g |-> g, a |-> a, e |-> ent[g], k |-> k[g]]) ELSE h
 RecStart(g) == h' = IF Emit THEN Append(h, [g |-> g, a |-> "Start", e |-> ent'[g], k |-> k'[g]]) ELSE h
@@ -65,56 +77,64 @@ Start(g) ==
   /\ \E c \in Cores, l \in Levels, m \in Msgs, t \in Times :
        ent' = [ent EXCEPT ![g] = [core |-> c, lvl |-> l, msg |-> m, t |-> t]]
   /\ k' = [k EXCEPT ![g] = @ + 1]
-  /\ pc' = [pc EXCEPT ![g] = CASE ent'[g].lvl = "off" -> "idle"      \* disabled: nothing happens
+  /\ pc' = [pc EXCEPT ![g] = CASE ~SeenEnabled(ent'[g].lvl) -> "idle"    \* disabled: nothing happens
                                [] ent'[g].lvl = "oor" -> "fwd"       \* out of range: straight to the wrapped core
                                [] OTHER -> "load"]
+  /\ skipped' = IF Enabled(ent'[g].lvl) THEN skipped ELSE skipped \cup {<<g, k'[g]>>}
   /\ RecStart(g)
-  /\ UNCHANGED <<resetAt, counter, ra, n, win, dec, hooks, fwd, resets>>
+  /\ UNCHANGED <<resetAt, counter, ra, n, win, dec, hooks, fwd, resets, minLvl, toggles>>
+
+\* the application changes the wrapped core's level at run time
+SetMin(m) ==
+  /\ toggles < MaxToggles /\ m \in MinLevels \ {minLvl}
+  /\ minLvl' = m /\ toggles' = toggles + 1
+  /\ h' = IF Emit THEN Append(h, [g |-> "env", a |-> "SetMin", e |-> [NoEnt EXCEPT !.lvl = m], k |-> 0]) ELSE h
+  /\ UNCHANGED <<resetAt, counter, pc, ent, ra, n, k, win, dec, hooks, fwd, resets, skipped>>
 
 InWindow(r, t) == IF WindowCmp = "gt" THEN r > t ELSE r >= t
 Load(g) ==
   /\ pc[g] = "load" /\ ra' = [ra EXCEPT ![g] = resetAt[C(g)]]
   /\ pc' = [pc EXCEPT ![g] = IF InWindow(resetAt[C(g)], ent[g].t) THEN "fastadd" ELSE "store"]
   /\ Rec(g, "Load")
-  /\ UNCHANGED <<resetAt, counter, ent, n, k, win, dec, hooks, fwd, resets>>
+  /\ UNCHANGED <<resetAt, counter, ent, n, k, win, dec, hooks, fwd, resets, minLvl, toggles, skipped>>
 Add(g) ==
   /\ pc[g] \in {"fastadd", "slowadd"}
   /\ counter' = [counter EXCEPT ![C(g)] = @ + 1] /\ n' = [n EXCEPT ![g] = counter[C(g)] + 1]
   /\ win' = [win EXCEPT ![C(g)] = Append(@, ent[g].t)]
   /\ pc' = [pc EXCEPT ![g] = "decide"]
   /\ Rec(g, "Add")
-  /\ UNCHANGED <<resetAt, ent, ra, k, dec, hooks, fwd, resets>>
+  /\ UNCHANGED <<resetAt, ent, ra, k, dec, hooks, fwd, resets, minLvl, toggles, skipped>>
 Store(g) ==
   /\ pc[g] = "store" /\ counter' = [counter EXCEPT ![C(g)] = 1] /\ pc' = [pc EXCEPT ![g] = "cas"]
   /\ Rec(g, "Store")
-  /\ UNCHANGED <<resetAt, ent, ra, n, k, win, dec, hooks, fwd, resets>>
+  /\ UNCHANGED <<resetAt, ent, ra, n, k, win, dec, hooks, fwd, resets, minLvl, toggles, skipped>>
 Cas(g) ==
   /\ pc[g] = "cas"
   /\ IF resetAt[C(g)] = ra[g]
      THEN /\ resetAt' = [resetAt EXCEPT ![C(g)] = ent[g].t + Tick]
           /\ n' = [n EXCEPT ![g] = 1] /\ pc' = [pc EXCEPT ![g] = "decide"]
           /\ win' = [win EXCEPT ![C(g)] = Append(@, ent[g].t)] /\ resets' = resets + 1   \* a new window opens
-     ELSE /\ UNCHANGED <<resetAt, n, win, resets>> /\ pc' = [pc EXCEPT ![g] = "slowadd"]
+     ELSE /\ UNCHANGED <<resetAt, n, win, resets, minLvl, toggles, skipped>> /\ pc' = [pc EXCEPT ![g] = "slowadd"]
   /\ Rec(g, "Cas")
-  /\ UNCHANGED <<counter, ent, ra, k, dec, hooks, fwd>>
+  /\ UNCHANGED <<counter, ent, ra, k, dec, hooks, fwd, minLvl, toggles, skipped>>
 
 Sampled(x) == IF ModRule = "code" THEN ~(x > N /\ (M = 0 \/ (x - N) % M # 0))
               ELSE ~(x > N /\ (M = 0 \/ (x - N) % M # 1 % M))
 Decide(g) ==
   /\ pc[g] = "decide" /\ dec' = dec \cup {<<g, k[g], Sampled(n[g])>>}
   /\ pc' = [pc EXCEPT ![g] = "hook"] /\ Rec(g, "Decide")
-  /\ UNCHANGED <<resetAt, counter, ent, ra, n, k, win, hooks, fwd, resets>>
+  /\ UNCHANGED <<resetAt, counter, ent, ra, n, k, win, hooks, fwd, resets, minLvl, toggles, skipped>>
 Hook(g) ==
   /\ pc[g] = "hook" /\ hooks' = hooks \cup {<<g, k[g], Sampled(n[g])>>}
   /\ pc' = [pc EXCEPT ![g] = IF Sampled(n[g]) THEN "fwd" ELSE "idle"]
   /\ Rec(g, "Hook")
-  /\ UNCHANGED <<resetAt, counter, ent, ra, n, k, win, dec, fwd, resets>>
+  /\ UNCHANGED <<resetAt, counter, ent, ra, n, k, win, dec, fwd, resets, minLvl, toggles, skipped>>
 Fwd(g) ==
   /\ pc[g] = "fwd" /\ fwd' = fwd \cup {<<g, k[g]>>} /\ pc' = [pc EXCEPT ![g] = "idle"]
   /\ Rec(g, "Fwd")
-  /\ UNCHANGED <<resetAt, counter, ent, ra, n, k, win, dec, hooks, resets>>
+  /\ UNCHANGED <<resetAt, counter, ent, ra, n, k, win, dec, hooks, resets, minLvl, toggles, skipped>>
 
-Next == \E g \in G : Start(g) \/ Load(g) \/ Add(g) \/ Store(g) \/ Cas(g) \/ Decide(g) \/ Hook(g) \/ Fwd(g)
+Next == (\E m \in MinLevels : SetMin(m)) \/ \E g \in G : Start(g) \/ Load(g) \/ Add(g) \/ Store(g) \/ Cas(g) \/ Decide(g) \/ Hook(g) \/ Fwd(g)
 Spec == Init /\ [][Next]_vars
 
 Quiet == \A g \in G : pc[g] = "idle"
@@ -129,6 +149,11 @@ Accounting == Quiet =>
    /\ hooks = dec
    /\ \A d1, d2 \in dec : (d1[1] = d2[1] /\ d1[2] = d2[2]) => d1 = d2
    /\ \A d \in dec : d[3] <=> <<d[1], d[2]>> \in fwd
+\* entries at a level that was disabled when they arrived are invisible: no decision, no hook, no forward, and
+\* (since win only grows in Add/Cas) no place in any window
+DisabledUntouched ==
+   /\ \A d \in dec \cup hooks : <<d[1], d[2]>> \notin skipped
+   /\ fwd \cap skipped = {}
 \* sequential histories (one goroutine): the decision for every entry is the reference rule applied to
 \* its position in its window
 \* reference window position of the last entry of ts, from timestamps alone: a window is opened by the
